@@ -67,7 +67,7 @@ type Conn struct {
 	F               Faults
 	failed          bool // a fault has fired; transport stays broken
 
-		// OutOverflow is set when more than MaxOut bytes were written (the rest is dropped).
+	// OutOverflow is set when more than MaxOut bytes were written (the rest is dropped).
 	OutOverflow bool
 
 	// OnRead, when set, is called (without the lock) at the start of every Read.
@@ -188,8 +188,9 @@ func (c *Conn) Close() error {
 	return nil
 }
 
-func (c *Conn) LocalAddr() net.Addr                { return c.Local }
-func (c *Conn) RemoteAddr() net.Addr               { return c.Remote }
+func (c *Conn) LocalAddr() net.Addr  { return c.Local }
+func (c *Conn) RemoteAddr() net.Addr { return c.Remote }
+
 // Deadlines are recorded, never enforced (no wall clock in verdicts): a deadline
 // that is still armed at quiescence is a structural fact a check can judge.
 func (c *Conn) SetDeadline(t time.Time) error {
@@ -254,11 +255,11 @@ func (c *Conn) EOF() {
 type Status int
 
 const (
-	Parked  Status = iota // server blocked in Read with nothing to deliver
-	Closed                // server closed the connection
-	Failed                // an injected fault fired and the server has not closed (yet)
-	Wedged                // watchdog expired
-	Spinning              // server keeps reading after EOF
+	Parked   Status = iota // server blocked in Read with nothing to deliver
+	Closed                 // server closed the connection
+	Failed                 // an injected fault fired and the server has not closed (yet)
+	Wedged                 // watchdog expired
+	Spinning               // server keeps reading after EOF
 )
 
 func (s Status) String() string {
@@ -406,11 +407,11 @@ func (c *Conn) OutSince(from int) []byte {
 // input segment, Read takes what the server wrote. It keeps a tap of both raw
 // directions and knows when its reader is parked with nothing to read.
 type ClientEnd struct {
-	C       *Conn
-	rd      int  // how much of C.out the client has consumed
-	Sent    []byte
-	parked  bool // client reader blocked with nothing to read
-	closed  bool
+	C      *Conn
+	rd     int // how much of C.out the client has consumed
+	Sent   []byte
+	parked bool // client reader blocked with nothing to read
+	closed bool
 }
 
 // NewClientEnd starts reading at the current end of the server's output.
